@@ -1,19 +1,21 @@
 (* Both directions of a stream pair: Stream.ReleaseReadAndReuse (Model/LinkedBuffer.dstep, DReuse).
-   The swap decision of the model is the one the translator found in stream.go (Gen/SwitchC06.v):
-   the proofs below are about exactly that decision and stop compiling when it changes. *)
+   The model is parametrized by the decisions the translators find in stream.go / session.go (swap
+   condition, sticky fallback, sweep condition: Gen/SwitchC06.v, C07.v, C08.v); the proofs below are about the
+   variant with every decision as in the current source ([mdstep]); Props/C06.v and Props/C08.v state that the
+   generated switches select exactly this variant and stop compiling when a decision changes. *)
 From Coq Require Import List ZArith Lia Bool Arith.
-From Shm Require Import Gen.Consts Gen.SwitchC06 Gen.SwitchC07 Gen.SwitchC08 Model.LinkedBuffer Proofs.LinkedBufferProofs Proofs.LinkedBufferStore
+From Shm Require Import Gen.Consts Model.LinkedBuffer Proofs.LinkedBufferProofs Proofs.LinkedBufferStore
   Proofs.LinkedBufferWriter Proofs.LinkedBufferXfer Proofs.LinkedBufferPipe.
 Import ListNotations.
 Close Scope Z_scope.
 Open Scope nat_scope.
 
-Definition mdstep := dstep sw_reuse_needs_len0 sw_reuse_needs_one_slice.
+Definition mdstep := dstep_gen true true true true.
 
 (* the swap happens only when nothing is unread *)
-Lemma swap_cond_len0 l : swap_cond sw_reuse_needs_len0 sw_reuse_needs_one_slice l = true -> len l = 0%Z.
+Lemma swap_cond_len0 l : swap_cond true true l = true -> len l = 0%Z.
 Proof.
-  unfold swap_cond. change sw_reuse_needs_len0 with true. cbv iota. intros H. apply andb_prop in H. destruct H as [H _].
+  unfold swap_cond. cbv iota. intros H. apply andb_prop in H. destruct H as [H _].
   apply Z.eqb_eq in H. exact H.
 Qed.
 
@@ -30,12 +32,12 @@ Theorem reuse_keeps_unread D d :
     h_snd h' = h_snd h /\ h_pend h' = h_pend h /\ h_infb h' = h_infb h /\
     h_rcv o' = h_rcv o /\ h_pend o' = h_pend o /\ h_infb o' = h_infb o /\ d_oth D' = d_oth D.
 Proof.
-  intros h o Hwf Hsb. unfold mdstep, dstep. fold h o.
+  intros h o Hwf Hsb. unfold mdstep, dstep_gen. fold h o.
   pose proof (release_reserve_ok (d_mem D) (h_rcv h) Hwf) as Hrel.
   pose proof (release_reserve_same_data (d_mem D) (h_rcv h)) as Hsd.
   destruct (release_reserve (d_mem D) (h_rcv h)) as [m1 l1]. cbn [fst] in Hsd. destruct Hrel as [Hwf1 [Hc1 _]].
   assert (Hsb1 : content m1 (h_snd o) = []) by (rewrite (content_same _ _ _ Hsd); exact Hsb).
-  destruct (swap_cond sw_reuse_needs_len0 sw_reuse_needs_one_slice l1) eqn:Esw.
+  destruct (swap_cond true true l1) eqn:Esw.
   - (* swap: nothing was unread *)
     pose proof (swap_cond_len0 l1 Esw) as Hl.
     assert (Hz : content m1 l1 = []).
@@ -49,7 +51,7 @@ Qed.
 (* the test on Len is necessary: without it, one partially read slice is swapped away *)
 Example reuse_without_len_test_loses_unread :
   let bs := map Z.of_nat (seq 0 10) in
-  let run st ops := fold_left (fun D o => match D with Some D => match dstep false true D o with Ok (_, D') => Some D' | _ => None end | None => None end) ops (Some st) in
+  let run st ops := fold_left (fun D o => match D with Some D => match dstep_gen false true true true D o with Ok (_, D') => Some D' | _ => None end | None => None end) ops (Some st) in
   match run (init_dsys [(16, 4)]) [DOp false (WBytes bs); DOp false WFlush; DOp false (RBytes 4); DReuse false] with
   | Some D => content (d_mem D) (h_rcv (d_0 D)) = [] /\ len (h_snd (d_1 D)) = 6%Z
   | None => False
@@ -201,7 +203,7 @@ Lemma dstep_op_inv D sp0 sp1 d o : DInv D sp0 sp1 ->
   | Some (x, sp0', sp1') => exists y D', mdstep D (DOp d o) = Ok (y, D') /\ res_agree o x y /\ DInv D' sp0' sp1'
   end.
 Proof.
-  intros [idss0 [idss1 [I0 I1]]]. unfold mdstep, dstep. destruct d; cbn [dspec_step dview dhalf negb].
+  intros [idss0 [idss1 [I0 I1]]]. unfold mdstep, dstep_gen. destruct d; cbn [dspec_step dview dhalf negb].
   - (* direction 1: stream B writes, A reads *)
     pose proof (half_step _ _ _ _ _ _ _ _ o I1 I0) as H. change (dview D true) with (mk_sys (d_mem D) (d_1 D) (d_oth D)).
     destruct (spec_step sp1 o) as [[x sp']|].
@@ -230,9 +232,9 @@ Qed.
 (* ---------------------------------------------------------------------------------------- *)
 (* ReleaseReadAndReuse preserves the invariant of the pair (incl. the swap)                  *)
 (* ---------------------------------------------------------------------------------------- *)
-Lemma swap_cond_one l : swap_cond sw_reuse_needs_len0 sw_reuse_needs_one_slice l = true -> length (slices l) = 1.
+Lemma swap_cond_one l : swap_cond true true l = true -> length (slices l) = 1.
 Proof.
-  unfold swap_cond. change sw_reuse_needs_one_slice with true. cbv iota. intros H. apply andb_prop in H. destruct H as [_ H].
+  unfold swap_cond. cbv iota. intros H. apply andb_prop in H. destruct H as [_ H].
   apply Nat.eqb_eq in H. exact H.
 Qed.
 
@@ -246,7 +248,7 @@ Lemma reuse_inv m hs hi hp hr ks ki kp kr oth0 sp_h idss_h sp_k idss_k :
   Inv (owned h idss_h) (slot_at m) (mk_sys m k oth0) sp_k idss_k ->
   pw sp_k = [] ->
   let '(m1, l1) := release_reserve m hr in
-  let '(rcv', ksnd') := if swap_cond sw_reuse_needs_len0 sw_reuse_needs_one_slice l1 then (ks, l1) else (l1, ks) in
+  let '(rcv', ksnd') := if swap_cond true true l1 then (ks, l1) else (l1, ks) in
   let h' := {| h_snd := hs; h_infb := hi; h_pend := hp; h_rcv := rcv' |} in
   let k' := {| h_snd := ksnd'; h_infb := ki; h_pend := kp; h_rcv := kr |} in
   Inv (owned k' idss_k) (slot_at m1) (mk_sys m1 h' oth0) sp_h idss_h /\
@@ -266,7 +268,7 @@ Proof.
       cbn [mk_sys with_mem_rcv mem snd rcv oth h1 h k h_snd h_rcv] in *. lia.
     - exact (proj1 (iv_oth _ _ _ _ _ I1)).
     - exact (proj2 (iv_oth _ _ _ _ _ I1)). }
-  destruct (swap_cond sw_reuse_needs_len0 sw_reuse_needs_one_slice l1) eqn:Esw; [|split; [exact Ih1|exact Ik1]].
+  destruct (swap_cond true true l1) eqn:Esw; [|split; [exact Ih1|exact Ik1]].
   (* the swap *)
   subst h1 h k.
   pose proof (swap_cond_len0 l1 Esw) as Hl0. pose proof (swap_cond_one l1 Esw) as Hone.
@@ -351,16 +353,16 @@ Qed.
 Lemma dstep_reuse_inv D sp0 sp1 d : DInv D sp0 sp1 -> dop_ok sp0 sp1 (DReuse d) ->
   exists D', mdstep D (DReuse d) = Ok (RUnit, D') /\ DInv D' sp0 sp1.
 Proof.
-  intros [idss0 [idss1 [I0 I1]]] Hok. unfold mdstep, dstep. destruct D as [m [s0 b0 p0 r0] [s1 b1 p1 r1] ot].
+  intros [idss0 [idss1 [I0 I1]]] Hok. unfold mdstep, dstep_gen. destruct D as [m [s0 b0 p0 r0] [s1 b1 p1 r1] ot].
   cbn [d_mem d_0 d_1 d_oth] in *. destruct d; cbn [dhalf negb d_0 d_1 d_mem d_oth h_snd h_infb h_pend h_rcv dop_ok] in *.
   - (* stream A (reads direction 1) releases: its send buffer is direction 0's *)
     pose proof (reuse_inv m s1 b1 p1 r1 s0 b0 p0 r0 ot sp1 idss1 sp0 idss0 I1 I0 Hok) as H.
     destruct (release_reserve m r1) as [m1 l1].
-    destruct (swap_cond sw_reuse_needs_len0 sw_reuse_needs_one_slice l1); destruct H as [H1 H0];
+    destruct (swap_cond true true l1); destruct H as [H1 H0];
       (eexists; split; [reflexivity|]; exists idss0, idss1; cbn [d_mem d_0 d_1 d_oth]; split; [exact H0|exact H1]).
   - pose proof (reuse_inv m s0 b0 p0 r0 s1 b1 p1 r1 ot sp0 idss0 sp1 idss1 I0 I1 Hok) as H.
     destruct (release_reserve m r0) as [m1 l1].
-    destruct (swap_cond sw_reuse_needs_len0 sw_reuse_needs_one_slice l1); destruct H as [H0 H1];
+    destruct (swap_cond true true l1); destruct H as [H0 H1];
       (eexists; split; [reflexivity|]; exists idss0, idss1; cbn [d_mem d_0 d_1 d_oth]; split; [exact H0|exact H1]).
 Qed.
 
@@ -590,9 +592,9 @@ Qed.
 (* with the transport decision of the current source every resumption pattern of the receiver delivers
    the flushed bytes in flush order (the proof is about the switch translated from Stream.Flush) *)
 Theorem transport_keeps_order : forall infb fl chunks,
-  concat chunks = choose sw_fallback_sticky infb fl -> deliver chunks = concat (map (@Datatypes.snd _ _) fl).
+  concat chunks = choose true infb fl -> deliver chunks = concat (map (@Datatypes.snd _ _) fl).
 Proof.
-  intros infb fl chunks H. change sw_fallback_sticky with true in H.
+  intros infb fl chunks H.
   rewrite deliver_sorted by (rewrite H; apply choose_sorted). rewrite H. apply bytes_choose.
 Qed.
 
@@ -606,7 +608,7 @@ Proof. reflexivity. Qed.
 (* the peer's close (half close) does not end a lease (C08)                                  *)
 (* ---------------------------------------------------------------------------------------- *)
 Theorem peer_close_is_invisible : forall s, step s RPeerClose = Ok (RUnit, s).
-Proof. intros s. cbn [step]. change sw_sweep_needs_closed with true. reflexivity. Qed.
+Proof. intros s. reflexivity. Qed.
 
 (* what the sweep would do to a kept zero-copy result if it ran for a half-closed stream (seed C08d) *)
 Example sweep_on_half_close_frees_a_leased_slot :
